@@ -79,7 +79,7 @@ pub fn generate(thorough: bool, seed: u64, out: &mut dyn Write) {
     // (F(P[0] ^ w0) with w0 = P1 ^ vvvv); `rot` shifts the byte per box so that the four boxes are
     // also hit with different indices in one call.  Every table word therefore feeds every
     // subkey of at least `reps` keys.
-    let reps = if thorough { 8 } else { 2 };
+    let reps = if thorough { 8 } else { 4 };
     for rep in 0..reps {
         for v in 0..=255u32 {
             let rot = |k: u32| (v + k * 64 * (rep as u32 % 4)) & 0xff;
@@ -123,7 +123,7 @@ pub fn generate(thorough: bool, seed: u64, out: &mut dyn Write) {
         writeln!(out, "enc {} {}", hex(&k), hex(&m)).unwrap();
     }
     // (4) random keys / messages, all three operations
-    let n = if thorough { 280_000 } else { 2_500 };
+    let n = if thorough { 280_000 } else { 10_000 };
     for i in 0..n {
         let kl = key_len(&mut rng);
         let key = key_of(&mut rng, kl);
